@@ -47,7 +47,10 @@ def build_cmd(kind, k):
             "dt": lambda: led.QueryFastFadeTime(a)}[kind]()
 
 
-def make_hid_world(driver, kinds, exc_on, limit, ret, nloss=1, tail=0, start_seq=1, cancel=False, cancel_who=0, eager=False):
+def make_hid_world(driver, kinds, exc_on, limit, ret, nloss=1, tail=0, start_seq=1, cancel=False, cancel_who=0, eager=False, exc_via="attr"):
+    """exc_on: whether callers want CommunicationError (True) or a transparent retry (False).  exc_via: how they say so -
+    "attr": the driver-wide exceptions_on_send attribute; "arg": the per-call exceptions= argument, with the attribute set
+    the OTHER way round (the argument has to win)."""
     def make():
         from dalimc.aio.hidworld import HidWorld
         cmds = [build_cmd(kd, i + 1) for i, kd in enumerate(kinds)]
@@ -73,12 +76,15 @@ def make_hid_world(driver, kinds, exc_on, limit, ret, nloss=1, tail=0, start_seq
                 async def co(w, i=i, gen=gen):
                     gens[i] = gen()
                     return await w.driver.run_sequence(gens[i])
+            elif exc_via == "arg":
+                async def co(w, c=c):
+                    return await w.driver.send(c, exceptions=exc_on)
             else:
                 async def co(w, c=c):
                     return await w.driver.send(c)
             callers.append(Caller(f"c{i + 1}", co, cancellable=(cancel and i == cancel_who)))
-        w = HidWorld(driver, bus, callers, start_seq=start_seq, reconnect_limit=limit, exceptions_on_send=exc_on,
-                     loss=nloss > 0, returns=ret)
+        w = HidWorld(driver, bus, callers, start_seq=start_seq, reconnect_limit=limit,
+                     exceptions_on_send=(exc_on if exc_via == "attr" else not exc_on), loss=nloss > 0, returns=ret)
         w.loss_budget = nloss
         w.cmds = cmds
         w.gens = gens
@@ -350,6 +356,11 @@ def shards(tier):
                     out.append(("loss", drv, kinds, True, limit, True, 2, 3))
         for limit in (1, 3):
             out.append(("loss", drv, ("num",), True, limit, True, 2, 2))       # loss, return, loss again
+        # the caller's wish expressed through the per-call argument, against a driver-wide default set the other way
+        for kinds in (("num",), ("off",), ("num", "off")):
+            for exc_on in (True, False):
+                for ret in (False, True):
+                    out.append(("loss", drv, kinds, exc_on, None, ret, 1, 2 if len(kinds) == 1 else 1, "arg"))
         for kinds in (("num",), ("twice",), ("dt",), ("num", "num")):
             for start_seq in (1, 0xFE):
                 out.append(("cancel", drv, kinds, start_seq, 2 if (tier != "quick" or kinds == ("num", "num")) else 1))
@@ -376,9 +387,10 @@ def run_shard(shard):
     k = shard[0]
     outs = set()
     if k == "loss":
-        _, drv, kinds, exc_on, limit, ret, nloss, bound = shard
-        cfg = dict(driver=drv, kinds=list(kinds), exc_on=exc_on, limit=limit, ret=ret, nloss=nloss, bound=bound)
-        mk = make_hid_world(drv, kinds, exc_on, limit, ret, nloss)
+        _, drv, kinds, exc_on, limit, ret, nloss, bound = shard[:8]
+        via = shard[8] if len(shard) > 8 else "attr"
+        cfg = dict(driver=drv, kinds=list(kinds), exc_on=exc_on, limit=limit, ret=ret, nloss=nloss, bound=bound, exc_via=via)
+        mk = make_hid_world(drv, kinds, exc_on, limit, ret, nloss, exc_via=via)
         for ch, (w, obs) in explore(lambda c: execute(mk, c), bound):
             outs.add(judge_hid(res, cfg, w, obs))
             res["evaluations"] += 1
@@ -420,7 +432,8 @@ def replay(case):
             mk = make_hid_world(cfg["driver"], tuple(cfg["kinds"]), True, None, False, nloss=0, tail=300, start_seq=cfg["start_seq"], cancel=True,
                                 cancel_who=cfg.get("cancel_who", 0), eager=cfg.get("eager", False))
         else:
-            mk = make_hid_world(cfg["driver"], tuple(cfg["kinds"]), cfg["exc_on"], cfg["limit"], cfg["ret"], cfg.get("nloss", 1))
+            mk = make_hid_world(cfg["driver"], tuple(cfg["kinds"]), cfg["exc_on"], cfg["limit"], cfg["ret"], cfg.get("nloss", 1),
+                                exc_via=cfg.get("exc_via", "attr"))
         for ch, (w, obs) in explore(lambda c: execute(mk, c), cfg.get("bound", 2)):
             n0 = len(res["violations"])
             judge_hid(res, cfg, w, obs)
